@@ -379,4 +379,95 @@ def standin_joint_tables(tier, seed):
                 bound=dict(cases=len(cases), row_orders=len(orders), exhaustive=(tier == "thorough")))
 
 
-STANDINS = [standin_direct_api, standin_joint_tables, standin_visit_tables, standin_malformed]
+def standin_covariate_tables(tier, seed):
+    """covariate layout (visits + per-individual integer covariates): every row order of a small valid table gives the same dataset,
+    with the individuals in order of first appearance and each individual's covariates attached to it; tables whose covariates are
+    missing, not integers, not constant within an individual, constant across individuals, or missing altogether are refused with
+    LeaspyDataInputError; the caller's table is never modified."""
+    import itertools
+    import pandas as pd
+    from leaspy.io.data import Data, Dataset
+    from leaspy.exceptions import LeaspyDataInputError
+    violations, evals, distinct = [], 0, set()
+    cols = ["ID", "TIME", "Y", "SEX", "GROUP"]
+    base = [("A", 60.0, 0.2, 0, 2), ("A", 65.0, 0.3, 0, 2), ("A", 67.0, 0.33, 0, 2), ("B", 66.0, 0.25, 1, 2), ("C", 61.5, 0.5, 1, 0)]
+    fk = dict(covariate_names=["SEX", "GROUP"])
+
+    def ingest(df):
+        import warnings
+        with warnings.catch_warnings():
+            warnings.simplefilter("ignore")
+            data = Data.from_dataframe(df, data_type="covariate", factory_kws=fk)
+            ds = Dataset(data)
+        return data, ds
+    orders = list(itertools.permutations(range(5))) if tier == "thorough" else list(itertools.permutations(range(5)))[::7]
+    want_cov = {"A": [0, 2], "B": [1, 2], "C": [1, 0]}
+    want_times = {"A": [60.0, 65.0, 67.0], "B": [66.0], "C": [61.5]}
+    for perm in orders:
+        df = pd.DataFrame([base[i] for i in perm], columns=cols)
+        before = df.copy(deep=True)
+        evals += 1
+        distinct.add(("valid", perm))
+        try:
+            data, ds = ingest(df)
+        except Exception as e:
+            violations.append(dict(key=f"covariate table: a valid table is refused for some row order ({type(e).__name__}: {str(e)[:80]})", order=list(perm)))
+            break
+        if not before.equals(df):
+            violations.append(dict(key="covariate table: the caller's table was modified"))
+            break
+        first_seen = list(dict.fromkeys(df["ID"]))
+        if list(ds.indices) != first_seen:
+            violations.append(dict(key=f"covariate table: individuals {list(ds.indices)} not in order of first appearance {first_seen}"))
+            break
+        if list(ds.covariate_names or []) != ["SEX", "GROUP"] or ds.covariates is None:
+            violations.append(dict(key="covariate table: covariate names / values missing from the dataset"))
+            break
+        for k, sid in enumerate(ds.indices):
+            nv = int(ds.n_visits_per_individual[k])
+            if ds.covariates[k].tolist() != want_cov[sid] or [round(float(t), 4) for t in ds.timepoints[k, :nv]] != want_times[sid]:
+                violations.append(dict(key=f"covariate table: individual {sid} got covariates {ds.covariates[k].tolist()} / ages {ds.timepoints[k, :nv].tolist()} "
+                                           f"instead of {want_cov[sid]} / {want_times[sid]}", order=list(perm)))
+                break
+        if violations:
+            break
+
+    def variant(changes, drop=None):
+        rows = [list(r) for r in base]
+        for (r, c), v in changes.items():
+            rows[r][cols.index(c)] = v
+        df = pd.DataFrame(rows, columns=cols)
+        return df.drop(columns=drop) if drop else df
+    bad = [("covariate missing on one visit", variant({(1, "SEX"): float("nan")})),
+           ("covariate not an integer", variant({(0, "GROUP"): 2.5, (1, "GROUP"): 2.5, (2, "GROUP"): 2.5})),
+           ("covariate changing between the visits of one individual", variant({(2, "SEX"): 1})),
+           ("covariate deviating on one (possibly intermediate) visit only", variant({(1, "SEX"): 1})),
+           ("covariate taking three values over the visits of one individual", variant({(0, "GROUP"): 0, (1, "GROUP"): 1})),
+           ("covariate with a single value over the cohort", variant({(4, "GROUP"): 2})),
+           ("covariate column absent from the table", variant({}, drop=["GROUP"])),
+           ("covariate given as text", variant({(0, "SEX"): "f", (1, "SEX"): "f", (2, "SEX"): "f"}))]
+    for what, tab in bad:
+        for perm in (orders[:18] if tier == "quick" else orders):
+            df = tab.iloc[list(perm)].reset_index(drop=True)
+            before = df.copy(deep=True)
+            evals += 1
+            distinct.add((what, perm))
+            try:
+                ingest(df)
+                violations.append(dict(key=f"covariate table ({what}): accepted instead of LeaspyDataInputError", order=list(perm)))
+                break
+            except LeaspyDataInputError:
+                pass
+            except Exception as e:
+                violations.append(dict(key=f"covariate table ({what}): {type(e).__name__} instead of LeaspyDataInputError: {str(e)[:80]}", order=list(perm)))
+                break
+            if not before.equals(df):
+                violations.append(dict(key=f"covariate table ({what}): the caller's table was modified"))
+                break
+    uniq = {v["key"]: v for v in violations}
+    return dict(evaluations=evals, distinct_nontrivial=len(distinct), rule="one evaluation = one row order of one small covariate table through Data.from_dataframe(data_type='covariate') and Dataset",
+                samples=[dict(rows=[list(map(str, r)) for r in base[:3]])], violations=list(uniq.values())[:60],
+                bound=dict(valid_row_orders=len(orders), malformed_kinds=len(bad), exhaustive=(tier == "thorough")))
+
+
+STANDINS = [standin_direct_api, standin_joint_tables, standin_covariate_tables, standin_visit_tables, standin_malformed]
